@@ -34,13 +34,28 @@ def explicit_calc_cfg(spec_cfg, gstep_hex):
     return cfg
 
 
-def _solo_child(world, steps, overrides, calc_cfg):
+class _SoloBudget(BaseException):
+    pass
+
+
+def _solo_child(world, steps, overrides, calc_cfg, step_budget=None):
     """steps: list of explicit ops run in order in this child (a danger op is preceded by its fire); the outcome of
     the last one is returned together with the pre-state of the weapon/ammo it may mutate."""
     lib.reset_globals()
     import logging
     logging.raiseExceptions = False
-    b = Builder(world, shared=False, seam=False, overrides=overrides, calc_cfg=calc_cfg)
+    # normally the solo run uses the plain Atmo (which also checks that the step seam is transparent); only when the
+    # simulated operation ran out of its deterministic step budget is the solo run given the same budget through the
+    # seam, so that "does not terminate solo either" is decided by counting, not by a wall clock
+    b = Builder(world, shared=False, seam=step_budget is not None, overrides=overrides, calc_cfg=calc_cfg)
+    if step_budget is not None:
+        n = [0]
+
+        def hook(altitude):
+            n[0] += 1
+            if n[0] > step_budget:
+                raise _SoloBudget()
+        lib.set_step_hook(hook)
     ctx = Ctx(b)
     out = None
     for op in steps:
@@ -53,14 +68,16 @@ def _solo_child(world, steps, overrides, calc_cfg):
         try:
             res = perform(op, ctx)
             out = outcome_ok(res)
+        except _SoloBudget:
+            out = {"kind": "budget", "digest": None}
         except Exception as e:  # noqa
             out = outcome_exc(e)
         out["pre"] = pre
     return out
 
 
-def solo(world, steps, overrides, calc_cfg, timeout=300):
-    return run_in_fork(_solo_child, (world, steps, overrides, calc_cfg), timeout=timeout)
+def solo(world, steps, overrides, calc_cfg, timeout=300, step_budget=None):
+    return run_in_fork(_solo_child, (world, steps, overrides, calc_cfg, step_budget), timeout=timeout)
 
 
 SKIP_COMPARE = ADMIN_OPS - {"gstep"}      # the global step setter takes a float-or-quantity: it is compared
@@ -107,7 +124,8 @@ def evaluate(spec, hist, compare_admin=False):
                 fop = make_explicit(prog[j], hist["globals_at"][ti][j]["slots"])
                 steps = [dict(fop, _idx=j), eop]
                 use_ov = ov_at[j]
-            sres = solo(world, steps, use_ov, calc_cfg)
+            sres = solo(world, steps, use_ov, calc_cfg,
+                        step_budget=(2 * max(1, res.get("steps", 0)) if res.get("kind") == "budget" else None))
             stats["solo_runs"] += 1
             post = (hist["post"][ti][i] or {})
             wid = str(world["shots"][op["shot"]]["weapon"]) if k in ("zero", "elev", "fire") else None
